@@ -25,3 +25,5 @@ for r in res:
     if r['verdict'] != 'proved':
         print(r['verdict'], r['name'], '%.2fs'%r['time'], r['trail'], (str(r['info'])[:600] if r['info'] else ''))
 print(len(res), 'obligations', sum(r['verdict']=='proved' for r in res), 'proved', '%.1fs'%(time.time()-t0))
+for r in sorted(res, key=lambda r: -r['time'])[:8]:
+    print('  slow: %.2fs %s %s %s' % (r['time'], r['verdict'], r['name'], r['backend']))
